@@ -130,10 +130,16 @@ contract('biogeme.catalog.Catalog.selected_name', 'C16',
          replay=_REPLAY_CAT)
 
 # names of multiple expressions cannot contain the separators of the identifier string
+field_type('Expression', 'children', 'list[biogeme.expressions.base_expressions.Expression]')   # (same declaration as c16c_ctor.py)
 contract('biogeme.expressions.multiple_expressions.MultipleExpression.__init__', 'C16',
          types={'name': 'str'}, check_frame=False,
          raises={'BiogemeError': "';' in name or ':' in name"},
-         ensures={'name': 'self.name == name'},
+         ensures={'name': 'self.name == name',
+                  # m3 (mutation review): the Expression part of the object is initialised (super().__init__()): an empty list of
+                  # children and no central controller / id manager yet -- what Catalog.__init__ and the iteration rely on
+                  'children_initialised': 'len(self.children) == 0',
+                  'no_central_controller_yet': 'self.central_controller is None',
+                  'no_id_manager_yet': 'self.id_manager is None'},
          replay="""
 from biogeme.catalog import Catalog
 from biogeme.expressions import Numeric, NamedExpression
@@ -201,6 +207,9 @@ APPLIED = (f"forall(lambda q: {_D}[{_SEL}[q].controller].current_index == "
 # C16:static:Configuration.selections:only-written-by-validating-sorting-setter).
 _KNOWN = f"forall(lambda q: {_SEL}[q].controller in {_D}, 0, LIM)"
 
+# controller number c of the tuple is named by one of the first LIM selections
+_LISTED = f"exists(lambda q: {_SEL}[q].controller == self.controllers[c].controller_name, 0, LIM)"
+
 contract(Q + 'CentralController.set_configuration', 'C16',
          types={'configuration': 'biogeme.configuration.Configuration'},
          modifies=['*.current_index'],
@@ -210,11 +219,16 @@ contract(Q + 'CentralController.set_configuration', 'C16',
              'known': _KNOWN.replace('LIM', f'len({_SEL})'),
              # every selection of the configuration is applied to the controller of that name
              'applied': under_inv(APPLIED.replace('LIM', f'len({_SEL})')),
+             # m3 (mutation review): an INCOMPLETE configuration is refused -- after a normal return every controller of the
+             # tuple is listed in the configuration
+             'complete': _LISTED.replace('LIM', f'len({_SEL})').join(('forall(lambda c: ', ', 0, len(self.controllers))')),
          },
          invariants={1: {'clauses': {
              'closure': under_inv(CLOSURE),
              'known': _KNOWN.replace('LIM', '_k'),
              'applied': under_inv(APPLIED.replace('LIM', '_k')),
+             'marked': 'forall(lambda c: self.controllers[c].controller_name in properly_set and '
+                       'properly_set[self.controllers[c].controller_name] == ' + _LISTED.replace('LIM', '_k') + ', 0, len(self.controllers))',
          }}},
          replay=_REPLAY_OPS)
 
